@@ -948,7 +948,7 @@ fn worker_c11(tier: &str, seed: u64) -> ExitCode {
     let batch = Batch {
         runs: runs * chunks,
         threads: threads(),
-        max_wall: Duration::from_secs(if thorough { 7200 } else { 900 }),
+        max_wall: Duration::from_secs(env_u64("VERIF_MAX_WALL_S").unwrap_or(if thorough { 7200 } else { 900 })),
         run_timeout: Duration::from_secs(300),
     };
     #[derive(Default)]
@@ -967,9 +967,11 @@ fn worker_c11(tier: &str, seed: u64) -> ExitCode {
         scenario_hashes: std::collections::BTreeSet<u64>,
     }
     let crumbs = CrumbWriter::new(id);
+    // VERIF_RUN_OFFSET: continue the seed's scenario sequence at this scenario index
+    let c11_offset = env_u64("VERIF_RUN_OFFSET").unwrap_or(0);
     let out = run_batch(&batch, Acc::default, |item, acc: &mut Acc| {
         // work item = (scenario, chunk): a scenario's plans are spread over CHUNKS items
-        let run_index = item / chunks;
+        let run_index = item / chunks + c11_offset;
         let chunk = (item % chunks) as usize;
         crumbs.write(run_index, seed);
         let rs = run_seed(seed, id, run_index);
@@ -1000,7 +1002,7 @@ fn worker_c11(tier: &str, seed: u64) -> ExitCode {
         acc.single += res.enumerated_single;
         acc.pairs += res.enumerated_pairs;
         acc.sampled += res.sampled_plans;
-        if chunk == 0 && acc.samples.len() < 2 && !res.discarded && res.baseline_calls > 0 && run_index < 64 {
+        if chunk == 0 && acc.samples.len() < 2 && !res.discarded && res.baseline_calls > 0 && run_index < c11_offset + 64 {
             acc.samples.push(json!({"run_index": run_index, "run_seed": rs, "scenario": res.base, "lp_calls_of_faulty_suffix_when_fault_free": res.baseline_calls,
                 "single_fault_plans_enumerated": res.enumerated_single}));
         }
